@@ -42,7 +42,8 @@ def synset_probability(synset: Synset, freq: Freq) -> float:
     through :func:`information_content`.
 
     """
-    pos_freq = freq[synset.pos]
+    # satellite adjectives are counted with the adjectives
+    pos_freq = freq[ADJ if synset.pos == ADJ_SAT else synset.pos]
     return pos_freq[synset.id] / pos_freq[None]
 
 
